@@ -64,6 +64,14 @@ claim("C13",
       "Trusted: audited tables in checker/c13*.go (switch exclusions, audited panics/asserts/lengths/error drops/loops), go/ssa.",
       "static analysis: switch exhaustiveness vs. type-checked universes, SSA dominance/path search (error flow, struct facts, clamps), VTA call-graph SCCs")
 
+claim("C12",
+      "Decides the structural conditions behind `method > converter > CLI > default` and `validated where written`: documented level table vs. the case labels of the three setting parsers, delegation of all other keys to "
+      "parseCommon with the caller's own Common, error arms for empty/unknown keys, documented key -> field table with typed value parsers applied to the unmodified value, parse.Bool semantics, order of application "
+      "(defaults, -g, converter, value copy, method lines), converter-level settings for shared generated sub-methods, method-level regex for method-level custom functions, isolation of Common, the conflicting pair, "
+      "located errors and absence of mutable package state. These hold for every setting x level x sibling combination, which the exhaustive product the property quantifies over would need ~10^4 runs to sample.",
+      "Not decided: the observable effect of a setting value on the generated code. Reference tables (level table, key->field table) in checker/c12.go are the documented behaviour; the discrepancy `enum` (documented converter-level, implemented inheritable) is frozen as-is.",
+      "static analysis: switch-label tables (AST+constants), composite-literal/assignment wiring, SSA dominance for ordering, error-flow for located errors")
+
 NOT_APPLICABLE_REASON = "rules for this property are designed (DESIGN.md §2) but the checker code is not built yet in this round; not claimed until it runs"
 
 def main():
